@@ -36,6 +36,7 @@ pub struct SCtx {
     pub tab_frees: u64,
     pub abort: bool,
     pub par: bool,
+    pub ser: bool,
 }
 
 impl SCtx {
@@ -471,6 +472,151 @@ fn op_pred(cx: &mut SCtx, kind: u64, a: usize, b: usize, par: Option<usize>) {
     });
     expect(cx, "set predicate", &out, &want, &toks);
 }
+/// serde on sets: Serialize (declared length + each element in order), Deserialize into another
+/// slot, deserialize_in_place over whatever the destination holds
+#[cfg(feature = "ser")]
+fn op_serialize(cx: &mut SCtx, s: usize) -> Vec<(u64, u64, u64)> {
+    let mut items: Vec<(u64, u64, u64)> = Vec::new();
+    let mut problem: Option<String> = None;
+    let out = run(cx, format!("serialize {}", s), "serialize", &[s], Some(s), |cx| {
+        let m = cx.sets[s].as_ref().unwrap();
+        match crate::ser::emit(m) {
+            Ok(e) => {
+                if e.kind != "seq" || !e.ended || !e.vals.is_empty() {
+                    problem = Some(format!("not a well-formed sequence: kind {} ended {}", e.kind, e.ended));
+                }
+                for k in &e.keys {
+                    let (c, i) = crate::ser::dec(*k);
+                    items.push((c, i, 0));
+                }
+                Out::S(vec![Out::N(e.declared.map_or(u64::MAX, |n| n as u64)), Out::L(items.clone())])
+            }
+            Err(m) => {
+                problem = Some(m);
+                Out::U
+            }
+        }
+    });
+    if cx.monitors {
+        if let Some(p) = problem {
+            vio("C16", format!("Serialize of set {}: {}", s, p));
+        }
+        let m = cx.sets[s].as_ref().unwrap();
+        let seq: Vec<(u64, u64, u64)> = m.iter().map(|k| (k.class, k.id, 0)).collect();
+        if let Out::S(ref l) = out {
+            if l[0] != Out::N(m.len() as u64) {
+                vio("C16", format!("Serialize declared length {:?} for a set of {} elements", l[0], m.len()));
+            }
+            if l[1] != Out::L(seq.clone()) {
+                vio("C16", format!("Serialize emitted {} elements, iter() yields {} (each once, in iteration order)", items.len(), seq.len()));
+            }
+        }
+    }
+    items
+}
+#[cfg(feature = "ser")]
+fn op_deserialize(cx: &mut SCtx, d: usize, items: Vec<(u64, u64, u64)>, hint: Option<usize>, in_place: bool) {
+    let mut toks = if in_place {
+        format!("deserinplace {} {} {}", d, hint.unwrap_or(0), items.len())
+    } else {
+        format!("fromiter {} 0 {} {}", d, crate::ser::cautious(hint), items.len())
+    };
+    for (k, kid, v) in &items {
+        write!(toks, " {} {} {}", k, kid, v).unwrap();
+    }
+    if !in_place && cx.sets[d].is_some() {
+        // an unrecorded drop of the set that was there: its deallocations still count
+        arm(None);
+        cx.sets[d] = None;
+        let c = disarm();
+        cx.tab_allocs += c.allocs;
+        cx.tab_frees += c.frees;
+    }
+    let xs: Vec<u64> = items.iter().map(|(k, kid, _)| crate::ser::enc(*k, *kid)).collect();
+    let mut err: Option<String> = None;
+    run(cx, toks.clone(), if in_place { "deserialize_in_place" } else { "deserialize" }, &[d], None, |cx| {
+        if in_place {
+            if let Err(e) = crate::ser::seq_in_place::<Set>(cx.sets[d].as_mut().unwrap(), xs, hint) {
+                err = Some(e);
+            }
+        } else {
+            match crate::ser::seq_from::<Set>(xs, hint) {
+                Ok(m) => cx.sets[d] = Some(m),
+                Err(e) => {
+                    err = Some(e);
+                    cx.sets[d] = Some(Set::default());
+                }
+            }
+        }
+        Out::U
+    });
+    cx.refs[d].clear();
+    for (k, kid, _) in &items {
+        cx.refs[d].entry(*k).or_insert(*kid);
+    }
+    if cx.monitors {
+        if let Some(e) = err {
+            vio("C16", format!("deserialisation failed: {} in [{}]", e, toks));
+        }
+        let m = cx.sets[d].as_ref().unwrap();
+        let got: Vec<(u64, u64)> = { let mut v: Vec<(u64, u64)> = m.iter().map(|k| (k.class, k.id)).collect(); v.sort(); v };
+        let want: Vec<(u64, u64)> = cx.refs[d].iter().map(|(k, kid)| (*k, *kid)).collect();
+        if got != want {
+            vio("C16", format!("after {} the set holds {} elements, the elements read are {} (the previous contents must be replaced entirely)", if in_place { "deserialize_in_place" } else { "deserialize" }, got.len(), want.len()));
+        }
+    }
+}
+#[cfg(feature = "ser")]
+fn ser_op(cx: &mut SCtx, s: usize, universe: u64) {
+    let d = (s + 1 + cx.rng.below(NS as u64 - 1) as usize) % NS;
+    match cx.rng.below(10) {
+        0..=3 => {
+            // round trip into another slot
+            let items = op_serialize(cx, s);
+            let hint = crate::ser::pick_hint(&mut cx.rng, items.len());
+            op_deserialize(cx, d, items, hint, false);
+            if cx.monitors && cx.sets[d].as_ref().unwrap() != cx.sets[s].as_ref().unwrap() {
+                vio("C16", format!("the round trip of set {} through serde is not equal to it", s));
+            }
+        }
+        4..=6 => {
+            // in place over whatever d holds (any resize phase), from what s serialises to
+            let items = op_serialize(cx, s);
+            let hint = crate::ser::pick_hint(&mut cx.rng, items.len());
+            op_deserialize(cx, d, items, hint, true);
+            if cx.monitors && cx.sets[d].as_ref().unwrap() != cx.sets[s].as_ref().unwrap() {
+                vio("C16", format!("deserialize_in_place of what set {} serialises to does not equal it", s));
+            }
+        }
+        7 => {
+            // in place from an empty sequence
+            let hint = crate::ser::pick_hint(&mut cx.rng, 0);
+            op_deserialize(cx, s, Vec::new(), hint, true);
+        }
+        _ => {
+            // arbitrary input with repeats
+            // (a repeated element directly follows its first occurrence: which table a later
+            // repeat would be found in depends on the order a resize started by this very call
+            // moves elements in, which the trace cannot tell the model)
+            let n = cx.rng.below(25);
+            let mut seen = BTreeSet::new();
+            let mut items: Vec<(u64, u64, u64)> = Vec::new();
+            for _ in 0..n {
+                let k = cx.rng.below(universe.min(60));
+                if seen.insert(k) {
+                    items.push((k, cx.kid(), 0));
+                    if cx.rng.below(3) == 0 {
+                        items.push((k, cx.kid(), 0));
+                    }
+                }
+            }
+            let hint = crate::ser::pick_hint(&mut cx.rng, items.len());
+            let ip = cx.rng.below(2) == 0;
+            op_deserialize(cx, s, items, hint, ip);
+        }
+    }
+}
+
 fn op_drop(cx: &mut SCtx, s: usize) {
     run(cx, format!("drop {}", s), "drop", &[s], None, |cx| {
         cx.sets[s] = None;
@@ -519,6 +665,11 @@ pub fn history(cx: &mut SCtx, maxops: u64) {
         n += 1;
         let s = cx.rng.below(NS as u64) as usize;
         let k = if cx.rng.below(8) == 0 { 1000 + cx.rng.below(fresh + 1) } else { cx.rng.below(universe + 4) };
+        #[cfg(feature = "ser")]
+        if cx.ser && cx.rng.below(4) == 0 {
+            ser_op(cx, s, universe);
+            continue;
+        }
         match cx.rng.below(100) {
             0..=13 => op_insert(cx, s, k),
             14..=19 => op_replace(cx, s, k),
